@@ -219,6 +219,9 @@ pub const VALUE_EXPRS: &[&str] = &[
     "1u8", "1_000", "0x1f", "0b1", "1e3", "1.", "1f32", "-1.5e-3", "1usize", "340282366920938463463374607431768211455",
     "r\"raw\"", "r#\"ra\"w\"#", "b'x'", "br\"x\"", "c\"x\"", "'\\n'", "\"\\u{e9}\\n\\\"\"", "\"\"", "'\u{e9}'",
     "\u{e9}", "\u{540d}::\u{524d}", "r#type", "r#type::r#match", "'a: loop {}", "&'static str", "<'a>",
+    "async move { 1 }", "|| -> u8 { 1 }", "for<'a> |x: &'a u8| x", "builtin # offset_of(A, b)", "unsafe { f() }.g", "x.await?", "a.b::<T>()", "<T as Tr>::f::<U>(1)",
+    "static || 1", "async |x| x", "do yeet 1", "become f()", "yield 1", "try { 1 }", "gen { yield 1 }", "x as *const T as usize", "&raw const x", "&raw mut x",
+    "[1, 2][..1]", "(1..=2).len()", "..=2", "x..", "1 .. 2 .. 3", "a < b > c", "a as u8 < b", "x.0.0", "x.0 .0", "1.0.0", "r#\"a\"#.len()",
 ];
 pub const TYPES: &[&str] = &[
     "u8", "String", "T", "U", "Vec<T>", "Option<T>", "&'a T", "&'a str", "[T; N]", "[u8; 3]",
@@ -235,6 +238,10 @@ pub const TYPES: &[&str] = &[
     "std::option::Option<T>", "::std::vec::Vec<u8>", "str", "&'a [T]", "Box<str>", "Box<[T]>", "HashMap<T, U>",
     "BTreeMap<u8, T>", "f32", "bool", "char", "usize", "i128", "NonZeroU8", "OrderedFloat<f64>", "Infallible",
     "PhantomPinned", "ManuallyDrop<T>", "MaybeUninit<T>", "UnsafeCell<T>", "AtomicUsize", "Duration",
+    // newer or unstable syntax that syn keeps as verbatim / special nodes
+    "impl Tr + use<>", "pattern_type!(u32 is 1..)",
+    "Box<dyn Tr<A: Copy>>", "impl Tr<A = impl Copy>", "X<{ const { 1 } }>", "&'static mut dyn for<'x> Tr<'x, Out = &'x T>",
+    "extern \"C\" fn(u8, ...) -> u8", "unsafe extern \"C-unwind\" fn()", "<T>::Assoc", "<<T as A>::B as C>::D", "T::A::B", "crate::X", "super::X<T>", "self::X",
 ];
 const TYPE_WRAPS: &[&str] = &[
     "Option<__>", "&'a __", "[__; N]", "fn(__) -> __", "Box<__>", "(__,)", "*mut __", "&__",
@@ -246,6 +253,8 @@ pub const GENERIC_PARAMS: &[&str] = &[
     "A", "F: Fn(T) -> T", "T: 'a + Copy", "const B: bool",
     "'static_", "'r#type", "'_a", "\u{e9}", "\u{540d}: Clone", "const \u{3b1}: usize", "'\u{e9}", "T: ?Sized + 'a",
     "const N: usize = { 1 + 1 }", "T: Tr<A = u8>", "T: Tr<{ 1 }>", "#[cfg(x)] T", "#[ord(ignore)] T",
+    "T: [const] Tr", "T: Tr<A: Copy>", "T: Tr<A = impl Copy>", "T: for<'x> Tr<'x> + ?Sized", "T: 'static + for<'x, 'y> Fn(&'x u8, &'y u8) -> &'x u8",
+    "const N: usize = 0x10", "const C: char = 'x'", "const B: bool = { true }", "T: ::core::clone::Clone", "T: (Clone)", "T: ?Sized + (Tr)",
 ];
 pub const WHERE_PREDS: &[&str] = &[
     "T: Copy",
@@ -273,6 +282,15 @@ pub const WHERE_PREDS: &[&str] = &[
     "for<'b> fn(&'b Self) -> Self: Copy",
     "[Self; 2]: Default",
     "Self: for<'b> Tr<'b> + ?Sized + 'static",
+    "for<'a, T2> T: Tr<'a, T2>",
+    "T: Tr<A: Copy>",
+    "T: [const] Tr",
+    "(T): Copy",
+    "(T, T): Copy",
+    "[T]: ToOwned",
+    "fn(T): Copy",
+    "*const T: Copy",
+    "!: Copy",
 ];
 pub const IDENTS: &[&str] = &[
     "r#type", "r#match", "r#fn", "H", "this", "other", "state", "to_index", "_self_0", "_0",
